@@ -139,6 +139,18 @@ theorem stepP_thub (f : Nat) (st : St α) (s : Src α) (n : Nat) :
   simp only [stepP, thubP, ALV.Gen.C03.progs, ALV.Gen.C03.thub, hubInitP_gen]
   cases s <;> simp only [step] <;> (try rfl) <;> (split <;> rfl)
 
+theorem initP_gen (args : List (CArg α)) : initP ALV.Gen.C03.init args = elabArgs args := by
+  match args with
+  | [] => rfl
+  | [a] => cases a <;> rfl
+  | a :: b :: r =>
+    simp only [initP, ALV.Gen.C03.init, evalICond, evalIData, chainItersOf, elabArgs]
+    by_cases h1 : (a :: b :: r).all CArg.iterable
+    · simp [h1]; rfl
+    · by_cases h2 : (a :: b :: r).all (fun a => !a.iterable)
+      · simp [h1, h2]
+      · simp [h1, h2]
+
 theorem stepP_tee (f : Nat) (st : St α) (i n : Nat) :
     stepP ALV.Gen.C03.progs f st (.tee i n) = step f st (.tee i n) := by
   simp only [stepP, teeP, ALV.Gen.C03.progs, ALV.Gen.C03.tee, step]
